@@ -648,6 +648,14 @@ pub fn main_for(default_engine: Engine) {
         crash::child();
         return;
     }
+    if std::env::args().nth(1).as_deref() == Some("burn-child") {
+        crash::burn_child();
+        return;
+    }
+    if std::env::args().nth(1).as_deref() == Some("burn-probe") {
+        crash::burn_probe();
+        return;
+    }
     match parse_args() {
         Mode::Gen { seed, cases, out } => {
             let mut t = Trace::create(&out);
